@@ -46,7 +46,7 @@ PROPS["C08"] = {
     "level": "model_checking",
     "monitors": ["C08"],
     "mc": node_mc("C08"),
-    "drivers": node_drivers(3, 12, [["--codecs", ALLC, "--twin"], ["--codecs", "fixed", "--forge", "--junk", "--twin"]]),
+    "drivers": node_drivers(3, 12, [["--codecs", ALLC, "--twin"], ["--codecs", "fixed", "--forge", "--junk", "--twin"], ["--codecs", "fixed,var", "--forge", "--resize"]]),
 }
 PROPS["C09"] = {
     "level": "model_checking",
@@ -64,13 +64,13 @@ PROPS["C11"] = {
     "level": "model_checking",
     "monitors": ["C11"],
     "mc": node_mc("C11"),
-    "drivers": node_drivers(3, 12, [["--codecs", ALLC], ["--codecs", "fixed", "--forge"]]),
+    "drivers": node_drivers(3, 12, [["--codecs", ALLC], ["--codecs", "fixed", "--forge"], ["--codecs", "fixed,var", "--resize"]]),
 }
 PROPS["C13"] = {
     "level": "model_checking",
     "monitors": ["C13"],
     "mc": node_mc("C13"),
-    "drivers": node_drivers(3, 12, [["--codecs", ALLC], ["--codecs", "fixed", "--ordered"], ["--codecs", "fixed", "--forge"]]),
+    "drivers": node_drivers(3, 12, [["--codecs", ALLC], ["--codecs", "fixed", "--ordered"], ["--codecs", "fixed", "--forge"], ["--codecs", "fixed,var", "--resize"]]),
 }
 PROPS["C19"] = {
     "level": "model_checking",
